@@ -250,6 +250,8 @@ namespace sqf::parser::preprocessor
             std::vector<file_scope> m_file_scopes;
             std::unordered_set<std::string> m_visited;
             bool m_errflag = false;
+            // names of the macros currently being expanded (guards against self- and mutually-recursive macros)
+            std::vector<std::string> m_expanding;
             impl_default* m_owner;
             std::unordered_map<std::string, ::sqf::runtime::parser::macro> m_macros;
 
